@@ -187,29 +187,32 @@ Fixpoint sizes_for (o : oracle) (n : name) : N * N :=
   | (k, v) :: r => if name_eqb n k then v else sizes_for r n
   end.
 
-Fixpoint freeze_all (l : list (name * tstate)) : res (list (name * tstate)) :=
+(* apply a per-table step to every table; a None is the panic at [s] *)
+Fixpoint map_tabs (s : site) (f : tstate -> option tstate) (l : list (name * tstate))
+  : res (list (name * tstate)) :=
   match l with
   | [] => Val []
   | (n, t) :: r =>
-      do t' <- of_opt SFrozenNotEmpty (freeze t);
-      do r' <- freeze_all r;
+      do t' <- of_opt s (f t);
+      do r' <- map_tabs s f r;
       Val ((n, t') :: r')
   end.
+
+Definition freeze_all := map_tabs SFrozenNotEmpty freeze.
 
 Definition lift_t {A} (r : tres A) : res A :=
   match r with TVal a => Val a | TKnown k => Known k | TPanic => Panic SPlanRange end.
 
-(* flush_table_buffer + compact for the table called n; returns the ids whose files are deleted
-   once the catalogue file is durable *)
+(* flush_table_buffer + compact for the table called n *)
 Definition flush_table (guard : bool) (c : cfg) (o : oracle) (n : name) (l : list (name * tstate))
-  : res (list (name * tstate) * list N) :=
+  : res (list (name * tstate)) :=
   match lookup n l with
   | None => Panic SNoTable
   | Some t =>
       let szs := sizes_for o n in
       let t1 := batch_table (fst szs) t in
       match plan_compaction (c_factor c) (t_parts t1) with
-      | PlanNone => Val (upd n t1 l, [])
+      | PlanNone => Val (upd n t1 l)
       | PlanOverflow => Panic SOverflow
       | PlanFrom i =>
           (* flush_table_buffer draws the id; compact() then loads the column names if needed *)
@@ -220,36 +223,24 @@ Definition flush_table (guard : bool) (c : cfg) (o : oracle) (n : name) (l : lis
               match t_cols t2 with
               | None => Panic SColsNotInit
               | Some cols =>
-                  do (t3, dead) <- lift_t (compact guard (snd szs) i cols t2);
-                  Val (upd n t3 l1, dead)
+                  do t3 <- lift_t (compact guard (snd szs) i cols t2);
+                  Val (upd n t3 l1)
               end
           end
       end
   end.
 
 Fixpoint flush_tables (guard : bool) (c : cfg) (o : oracle) (names : list name)
-         (l : list (name * tstate)) (dead : list (name * list N))
-  : res (list (name * tstate) * list (name * list N)) :=
+         (l : list (name * tstate)) : res (list (name * tstate)) :=
   match names with
-  | [] => Val (l, dead)
+  | [] => Val l
   | n :: rest =>
-      do (l1, d) <- flush_table guard c o n l;
-      flush_tables guard c o rest l1 (dead ++ [(n, d)])
+      do l1 <- flush_table guard c o n l;
+      flush_tables guard c o rest l1
   end.
 
 (* Storage::delete_orphaned_partitions *)
-Fixpoint delete_orphans (dead : list (name * list N)) (l : list (name * tstate))
-  : res (list (name * tstate)) :=
-  match dead with
-  | [] => Val l
-  | (n, ids) :: rest =>
-      match lookup n l with
-      | None => Panic SNoTable
-      | Some t =>
-          do fs <- of_opt SDeleteMissing (delete_files ids (t_files t));
-          delete_orphans rest (upd n (set_files t fs) l)
-      end
-  end.
+Definition delete_orphans := map_tabs SDeleteMissing delete_dead.
 
 (* Storage::delete_wal_segments(start..end) *)
 Fixpoint find_seg (id : N) (w : list (N * segment)) : bool :=
@@ -274,11 +265,11 @@ Definition flush (guard : bool) (c : cfg) (o : oracle) (s : db) : res db :=
   let hi := next_wal s in
   do l0 <- freeze_all (tabs s);
   (* batching, partition files, compaction (in-memory catalogue updated as they go) *)
-  do (l1, dead) <- flush_tables guard c o (map fst l0) l0 [];
+  do l1 <- flush_tables guard c o (map fst l0) l0;
   (* persist_metastore(hi): the catalogue file now holds the cursor and the current partitions *)
-  let l2 := map (fun nt => (fst nt, publish_meta (snd nt))) l1 in
+  do l2 <- map_tabs SNoTable (fun t => Some (publish_meta t)) l1;
   (* delete_orphaned_partitions, delete_wal_segments(lo..hi) *)
-  do l3 <- delete_orphans dead l2;
+  do l3 <- delete_orphans l2;
   do w <- of_opt SDeleteMissing (delete_segments (N.to_nat (hi - lo)) lo (d_wal s));
   Val {| tabs := l3; next_wal := hi; earliest := hi; wal_size := 0; d_cursor := Some hi;
          d_wal := w; acked := acked s |}.
